@@ -53,6 +53,10 @@ Proof.
   destruct (if round n <? r then _ else _) as [vs| |]; try discriminate. cbn zeta.
   destruct (hv_set_round _ _) as [hv| |]; try discriminate. apply nc_enter_propose.
 Qed.
+Lemma nc_enter_new_round_open h r : nc (enter_new_round_open h r).
+Proof.
+  intros n n' o x. unfold enter_new_round_open. destruct (step n <? 8); [apply nc_enter_new_round|apply nc_ret].
+Qed.
 Lemma nc_wait1 h r : nc (enter_prevote_wait h r).
 Proof.
   intros n n' o x. unfold enter_prevote_wait. destruct (_ || _); [apply nc_ret|].
@@ -207,7 +211,7 @@ Proof.
     destruct (negb added); [apply nc_absurd, nc_ret|].
     destruct (N.eqb (v_type v) 1).
     { cbn zeta. set (n2 := match lblock n1 with Some _ => _ | None => n1 end). clearbody n2.
-      destruct (_ && any23 _).
+      destruct (_ && any23_open _ _).
       - apply (nc_absurd (fun k => enter_new_round hh (v_round v) k >>= (fun n3 =>
                  match maj23 (hv_prevotes (votes n3) (v_round v)) with
                  | Some _ => enter_precommit hh (v_round v) n3
@@ -218,7 +222,7 @@ Proof.
         destruct (is_proposal_complete n2) as [[|]| |]; try discriminate; [apply nc_absurd, nc_enter_prevote|apply nc_absurd, nc_ret]. }
     destruct (N.eqb (v_type v) 2); [|discriminate]. cbn zeta.
     destruct (maj23 _) as [b|].
-    + destruct (b_hash b); [apply nc_absurd, nc_enter_new_round|]. cbn [andb].
+    + destruct (b_hash b); [apply nc_absurd, nc_enter_new_round_open|]. cbn [andb].
       apply (CW_tail (fun k => enter_new_round hh (v_round v) k >>= enter_precommit hh (v_round v) >>= enter_commit c hh (v_round v)) (fun n4 => ret n4));
         [| |exact H1|exact Hh1].
       * apply (CW_bind (fun k => enter_new_round hh (v_round v) k >>= enter_precommit hh (v_round v)) (enter_commit c hh (v_round v))).
@@ -227,7 +231,7 @@ Proof.
         -- intro off'. apply pres_bind; [apply pres_enter_new_round|apply pres_enter_precommit].
         -- apply kh_bind'; [apply kh_enter_new_round|apply kh_enter_precommit].
       * intro k. left. reflexivity.
-    + destruct (_ && any23 _); [|apply nc_absurd, nc_ret].
+    + destruct (_ && any23_open _ _); [|apply nc_absurd, nc_ret].
       apply (nc_absurd (fun k => enter_new_round hh (v_round v) k >>= enter_precommit hh (v_round v) >>= enter_precommit_wait hh (v_round v)) _ n1).
       apply (nc_bind (fun k => enter_new_round hh (v_round v) k >>= enter_precommit hh (v_round v)) (enter_precommit_wait hh (v_round v))); [|apply nc_wait2].
       apply nc_bind; [apply nc_enter_new_round|apply nc_enter_precommit].
